@@ -208,6 +208,9 @@ def check(model, rep):
     rep.ob('R10.3', v, 'validate(): four validators in switch order under limits 0..3', chain == want, 'chain is %s' % chain)
     rep.ob('R10.3', v, 'validate() returns the accumulated verdict', acc is not None, 'validate does not return the accumulated verdict')
 
+    rep.rule('R10.6', 'each constraint predicate tests the documented quantity of the current state (lengths vs limits, top height in the BOTTOM frame, joint deflection, relative-rotation diagonal)')
+    constraint_definitions(model, rep, 'R10.6')
+
     # ---------------------------------------------------------------- R10.4
     rep.rule('R10.4', 'pure queries (default arguments) end with the stored plate poses they started with')
     for name in QUERIES:
@@ -269,3 +272,74 @@ def check(model, rep):
            'unbounded recursion found' if cycles else 'every cycle is cut by a constant argument (protect / donothing / validation_limit / _fallback)',
            qualname='SP', line=0)
     rep.floor('R10.5', 'methods on a syntactic call cycle', len(cyclic), 5)
+
+
+def constraint_definitions(model, rep, rule, only=None):
+    """Each constraint predicate of SP tests the documented quantity of the CURRENT state (structural; the comparison may be
+    written either way round, intermediate names are inlined):
+      leg lengths     any(lengths < leg_ext_min) or any(lengths > leg_ext_max)            -> False
+      top above bottom  z of the top plate origin IN THE BOTTOM PLATE'S FRAME < 0           -> False
+      joint deflection  NaN or any(|angles from normal| > joint_deflection_max)            -> False
+      plate tilt      diagonal entry i of the RELATIVE plate rotation <= limit - margin    -> False (i = 0, 1, 2)"""
+    from ..engine.inline import Inliner, cmp_parts, norm_text
+    sp = model.cls(SPM, 'SP')
+
+    def compares(fi):
+        il = Inliner(fi)
+        out = []
+        for n in walk_own(fi.node):
+            if isinstance(n, ast.Compare) and len(n.ops) == 1:
+                e = il.expand(n)
+                out.append((n, e))
+        return il, out
+
+    def method(name):
+        fi = sp.methods.get(name)
+        if fi is None:
+            raise AnalysisError('anchor vanished: SP.' + name)
+        return fi
+    if only is None or '_continuousTranslationConstraint' in only:
+        fi = method('_continuousTranslationConstraint')
+        il, cs = compares(fi)
+        REL = ('fsr.globalToLocal(self.getBottomT(),self.getTopT())[2]', '(self.getBottomT().inv()@self.getTopT())[2]',
+               'fsr.globalToLocal(self._base_pos_global,self._end_effector_pos_global)[2]', 'self._current_plate_transform_local[2]')
+        seen = 0
+        for n, e in cs:
+            cp = cmp_parts(e, left=lambda t: t in REL)
+            if cp is not None:
+                seen += 1
+                rep.ob(rule, fi, 'height of the top plate in the bottom frame vs 0: ' + norm_text(n)[:60], cp[1] in ('<', '<=') and cp[2] in ('0', '0.0'),
+                       'the configuration is declared invalid when %s %s %s' % cp, line=n.lineno)
+            else:
+                t = norm_text(e)
+                if 'getTopT()' in t or 'getBottomT()' in t or '_end_effector_pos_global' in t or '_base_pos_global' in t:
+                    seen += 1
+                    rep.ob(rule, fi, 'height of the top plate in the bottom frame vs 0: ' + norm_text(n)[:60], False,
+                           'the test `%s` compares world-frame components of the plate poses: for a base that is tilted (wall / ceiling mount) the '
+                           'sign of the world-z difference says nothing about which side of the bottom plate the top plate is on, so a correct '
+                           'pose is taken for an inverted one (and mirrored)' % t[:90], line=n.lineno)
+        rep.ob(rule, fi, 'top-above-bottom test present', seen >= 1, 'no comparison of the relative plate height found')
+    if only is None or '_legLengthConstraint' in only:
+        fi = method('_legLengthConstraint')
+        il, cs = compares(fi)
+        got = set()
+        for n, e in cs:
+            cp = cmp_parts(e, left='self.lengths')
+            if cp is not None:
+                got.add((cp[1].rstrip('='), cp[2]))
+        rep.ob(rule, fi, 'lengths < leg_ext_min or lengths > leg_ext_max', got == {('<', 'self.leg_ext_min'), ('>', 'self.leg_ext_max')},
+               'leg-length constraint compares %s' % sorted(got))
+    if only is None or '_interiorAnglesConstraint' in only:
+        fi = method('_interiorAnglesConstraint')
+        il, cs = compares(fi)
+        ok = any((cmp_parts(e, left='abs(self.getJointAnglesFromNorm())') or ('', '', ''))[1:] in (('>', 'self.joint_deflection_max'), ('>=', 'self.joint_deflection_max')) for n, e in cs)
+        rep.ob(rule, fi, '|angles from normal| > joint_deflection_max', ok, 'joint-deflection constraint compares %s' % [norm_text(e)[:70] for n, e in cs])
+    if only is None or '_plateRotationConstraint' in only:
+        fi = method('_plateRotationConstraint')
+        il, cs = compares(fi)
+        loops = [n for n in walk_own(fi.node) if isinstance(n, ast.For) and isinstance(n.target, ast.Name)]
+        iv = loops[0].target.id if loops else '?'
+        ok = bool(loops) and norm_text(loops[0].iter) == 'range(3)' and any(
+            (cmp_parts(e, left='self._current_plate_transform_local.gTM()[%s,%s]' % (iv, iv)) or ('', '', ''))[1] in ('<', '<=') for n, e in cs)
+        rep.ob(rule, fi, 'diagonal of the relative rotation vs plate_rotation_limit (three axes)', ok,
+               'plate-tilt constraint compares %s over %s' % ([norm_text(e)[:70] for n, e in cs], norm_text(loops[0].iter) if loops else '?'))
